@@ -69,6 +69,17 @@ r_src.txt
 right.txt
 :
 
+tail.txt
+:
+refrain.txt
+right.txt
+:
+mycat
+right.txt
+refrain.txt
+tail.txt
+:
+
 song.txt
 :
 refrain.txt
@@ -142,18 +153,19 @@ impl Printer for RecordingPrinter
     fn error(&mut self, text: &str) { self.errors.push(text.to_string()); }
 }
 /*  (targets, first line of the command) of the five rules */
-const RULE_CMDS : [(&[&str], &str); 6] = [
+const RULE_CMDS : [(&[&str], &str); 7] = [
+    (&["tail.txt"], "mycat right.txt refrain.txt tail.txt"),
     (&["left.txt", "right.txt"], "mycat l_src.txt left.txt"),
     (&["stanza.txt"], "mycat verse.txt stanza.txt"), (&["poem.txt"], "mycat stanza.txt refrain.txt poem.txt"), (&["aside.txt", "copy.txt"], "mycat note.txt aside.txt"),
     (&["song.txt"], "mycat refrain.txt verse.txt song.txt"), (&["album.txt"], "mycat song.txt note.txt album.txt")];
 
 #[derive(Clone, Copy, Debug, PartialEq)]
-enum Act { VerseA, VerseB, RefrainS, Build, BuildPoem, Clean, CleanStanza, TamperStanza, DeleteStanza, DropCacheEntryOfStanza, HiddenGone, HiddenBack, NoteLikeVerseA, CleanAside, SwapVerseRefrain, DropSongRules, DeleteAside, NoteP, NoteN, StashStanza, UnstashStanza, SwapLeftRight, DropWholeCache }
+enum Act { VerseA, VerseB, RefrainS, Build, BuildPoem, Clean, CleanStanza, TamperStanza, DeleteStanza, DropCacheEntryOfStanza, HiddenGone, HiddenBack, NoteLikeVerseA, CleanAside, SwapVerseRefrain, DropSongRules, DeleteAside, NoteP, NoteN, StashStanza, UnstashStanza, SwapLeftRight, DropWholeCache, EditRightSrc }
 const ACTS : [Act; 12] = [Act::VerseA, Act::VerseB, Act::RefrainS, Act::Build, Act::BuildPoem, Act::Clean, Act::CleanStanza, Act::TamperStanza, Act::DeleteStanza, Act::DropCacheEntryOfStanza, Act::HiddenGone, Act::HiddenBack];
 
 fn params(goal: Option<&str>) -> BuildParams { BuildParams::from_all(".ruler".to_string(), vec!["build.rules".to_string()], None, goal.map(|s| s.to_string())) }
 fn read(system: &FakeSystem, p: &str) -> Option<String> { if system.is_file(p) { read_file_to_string(system, p).ok() } else { None } }
-const TARGETS : [&str; 8] = ["stanza.txt", "poem.txt", "aside.txt", "copy.txt", "song.txt", "album.txt", "left.txt", "right.txt"];
+const TARGETS : [&str; 9] = ["stanza.txt", "poem.txt", "aside.txt", "copy.txt", "song.txt", "album.txt", "left.txt", "right.txt", "tail.txt"];
 
 /*  (content, mtime, executable bit) of a file, for the C09 oracle */
 fn stat(system: &FakeSystem, p: &str) -> Option<(String, std::time::SystemTime, bool)>
@@ -162,8 +174,8 @@ fn stat(system: &FakeSystem, p: &str) -> Option<(String, std::time::SystemTime, 
     Some((read_file_to_string(system, p).ok()?, system.get_modified(p).ok()?, system.is_executable(p).ok()?))
 }
 const UNTOUCHABLE : [&str; 10] = ["verse.txt", "refrain.txt", "note.txt", "hidden.txt", "build.rules", "undeclared.txt", "stanza.txt.tmp", "poem.txt.tmp", "l_src.txt", "r_src.txt"];
-const OUT_OF_POEM_SCOPE : [&str; 6] = ["aside.txt", "copy.txt", "song.txt", "album.txt", "left.txt", "right.txt"];
-const OUT_OF_STANZA_SCOPE : [&str; 7] = ["poem.txt", "aside.txt", "copy.txt", "song.txt", "album.txt", "left.txt", "right.txt"];
+const OUT_OF_POEM_SCOPE : [&str; 7] = ["aside.txt", "copy.txt", "song.txt", "album.txt", "left.txt", "right.txt", "tail.txt"];
+const OUT_OF_STANZA_SCOPE : [&str; 8] = ["poem.txt", "aside.txt", "copy.txt", "song.txt", "album.txt", "left.txt", "right.txt", "tail.txt"];
 /*  contents held at target paths or in the cache */
 fn held(system: &FakeSystem) -> BTreeSet<String>
 {
@@ -233,6 +245,8 @@ fn run_history_clock(h: &Vec<Act>, drop_table: bool, fine: bool) -> Outcome
                 let (l, r) = (read(&system, "l_src.txt").unwrap(), read(&system, "r_src.txt").unwrap());
                 write_str_to_file(&mut system, "l_src.txt", &r).unwrap(); write_str_to_file(&mut system, "r_src.txt", &l).unwrap();
             },
+            /*  only the SECOND target of the two-target rule changes */
+            Act::EditRightSrc => { write_str_to_file(&mut system, "r_src.txt", "Right, revised.\n").unwrap(); },
             Act::DropWholeCache => { if let Ok(names) = system.list_dir(".ruler/cache") { for n in names { if system.is_file(&n) { system.remove_file(&n).unwrap(); } } } },
             Act::DeleteAside => { if system.is_file("aside.txt") { system.remove_file("aside.txt").unwrap(); } },
             Act::NoteP => { write_str_to_file(&mut system, "note.txt", "P.S.\n").unwrap(); },
@@ -348,7 +362,7 @@ fn run_history_clock(h: &Vec<Act>, drop_table: bool, fine: bool) -> Outcome
                 let distinct =
                 {
                     let (v, r, n) = (read(&system, "verse.txt").unwrap(), read(&system, "refrain.txt").unwrap(), read(&system, "note.txt").unwrap());
-                    let mut all = vec![v.clone(), format!("{}{}", v, r), n.clone(), format!("{}{}", n, r), read(&system, "l_src.txt").unwrap(), read(&system, "r_src.txt").unwrap()];
+                    let mut all = vec![v.clone(), format!("{}{}", v, r), n.clone(), format!("{}{}", n, r), read(&system, "l_src.txt").unwrap(), read(&system, "r_src.txt").unwrap(), format!("{}{}", read(&system, "r_src.txt").unwrap(), r)];
                     if !reduced { all.push(format!("{}{}", r, v)); all.push(format!("{}{}{}", r, v, n)); }
                     let k = all.len(); all.sort(); all.dedup(); all.len() == k
                 };
@@ -358,7 +372,7 @@ fn run_history_clock(h: &Vec<Act>, drop_table: bool, fine: bool) -> Outcome
                     /*  C01: from-scratch outputs of the current sources */
                     let verse = read(&system, "verse.txt").unwrap(); let refrain = read(&system, "refrain.txt").unwrap(); let note = read(&system, "note.txt").unwrap();
                     let mut expect = vec![("stanza.txt", verse.clone()), ("poem.txt", format!("{}{}", verse, refrain))];
-                    if goal.is_none() { expect.push(("left.txt", read(&system, "l_src.txt").unwrap())); expect.push(("right.txt", read(&system, "r_src.txt").unwrap())); expect.push(("aside.txt", note.clone())); expect.push(("copy.txt", format!("{}{}", note, refrain))); if !reduced { expect.push(("song.txt", format!("{}{}", refrain, verse))); expect.push(("album.txt", format!("{}{}{}", refrain, verse, note))); } }
+                    if goal.is_none() { expect.push(("left.txt", read(&system, "l_src.txt").unwrap())); expect.push(("right.txt", read(&system, "r_src.txt").unwrap())); expect.push(("tail.txt", format!("{}{}", read(&system, "r_src.txt").unwrap(), refrain))); expect.push(("aside.txt", note.clone())); expect.push(("copy.txt", format!("{}{}", note, refrain))); if !reduced { expect.push(("song.txt", format!("{}{}", refrain, verse))); expect.push(("album.txt", format!("{}{}{}", refrain, verse, note))); } }
                     for (p, want) in expect.iter()
                     {
                         if read(&system, p).as_ref() != Some(want) { complaints.push(("B-build-C01".to_string(), format!("after a successful build {} holds {:?}, a from-scratch build gives {:?}", p, read(&system, p), want))); }
@@ -389,7 +403,7 @@ fn run_history_clock(h: &Vec<Act>, drop_table: bool, fine: bool) -> Outcome
                     running a command are the C01 / C02 oracles) */
                 if cleaned.is_ok()
                 {
-                    let in_scope : Vec<&str> = match a { Act::CleanStanza => vec!["stanza.txt"], Act::CleanAside => vec!["aside.txt", "copy.txt"], _ => if reduced { vec!["stanza.txt", "poem.txt", "aside.txt", "copy.txt", "left.txt", "right.txt"] } else { vec!["stanza.txt", "poem.txt", "aside.txt", "copy.txt", "song.txt", "album.txt", "left.txt", "right.txt"] } };
+                    let in_scope : Vec<&str> = match a { Act::CleanStanza => vec!["stanza.txt"], Act::CleanAside => vec!["aside.txt", "copy.txt"], _ => if reduced { vec!["stanza.txt", "poem.txt", "aside.txt", "copy.txt", "left.txt", "right.txt", "tail.txt"] } else { vec!["stanza.txt", "poem.txt", "aside.txt", "copy.txt", "song.txt", "album.txt", "left.txt", "right.txt", "tail.txt"] } };
                     for p in in_scope.iter() { if system.is_file(p) { complaints.push(("B-build-C10".to_string(), format!("{} is still in the workspace after a clean that reported success", p))); } }
                 }
             },
@@ -496,6 +510,8 @@ fn verif_build_long_histories()
         vec![Build, DeleteAside, Clean, Build],
         vec![Build, SwapLeftRight, Build, DropWholeCache, SwapLeftRight, Build],
         vec![Build, SwapLeftRight, Build, SwapLeftRight, Build],
+        vec![Build, EditRightSrc, Build],
+        vec![Build, EditRightSrc, Build, SwapLeftRight, Build],
         vec![Build, VerseB, NoteLikeVerseA, Build, CleanAside, DeleteStanza, VerseA, Build],
         vec![Build, VerseB, NoteLikeVerseA, Build, CleanAside, CleanStanza, VerseA, Build],
     ];
